@@ -51,7 +51,7 @@ def whole_pass(a, lp, is_seq):
         it = a.arg(nx[0], 0)
         srcs = [e_ for (_, _, e_) in a.flow.sources(it)]
         ok = bool(srcs) and all(is_seq(e_) or (e_[0] == 'call' and sg(e_[1]).split('::')[-1] in ('iter', 'into_iter') and len(e_[2]) == 1 and is_seq(e_[2][0])) for e_ in srcs)
-        none = set(a.dest_variant_edges(nx[0]).get('0', []))
+        none = set(a.none_edges(a.dest_variant_edges(nx[0])))
         if ok and none and exits <= none:
             return dict(kind='iterator', elem=lambda z, it=it: z == it, elem_expr=it, exhaust=none, counter=None)
     # -- index form
